@@ -41,7 +41,7 @@ def _child(args, env):
     return subprocess.Popen([os.path.join(C.BIN, "vipsim")] + args, env=env, stdout=subprocess.DEVNULL, stderr=subprocess.DEVNULL)
 
 
-def crash_round(work, name, seed, nops, typical):
+def crash_round(work, name, seed, nops, typical, commit=None):
     """one history with one crash; returns (trace lines, info)"""
     rnd = random.Random(seed)
     ops = crash_ops(rnd, nops)
@@ -53,10 +53,15 @@ def crash_round(work, name, seed, nops, typical):
     logp = os.path.join(d, "child.ndjson")
     env = dict(os.environ, GOMAXPROCS="1", VIP_BADGER_PROD="1")
     mode = rnd.choice(["self", "parent", "commit", "commit"])
+    if commit is not None:
+        mode = "commitsweep"
     st1 = os.path.join(d, "st1")
     if mode == "self":
         k = rnd.randrange(1, len(ops))
         p = _child(["crashchild", sp, logp, st1, "0", str(k)], env)
+        p.wait(timeout=300)
+    elif mode == "commitsweep":
+        p = _child(["crashchild", sp, logp, st1, "0", "-1", str(commit)], env)
         p.wait(timeout=300)
     elif mode == "commit":
         # kill right after the n-th committed store transaction (verif hook in the badger driver):
@@ -118,7 +123,7 @@ def crash_round(work, name, seed, nops, typical):
             st3 = os.path.join(d, "st3")
             p3 = _child(["crashchild", sp, log2, st3, str(last_k + 1), "-1"], env)
             p3.wait(timeout=300)
-            if not os.path.exists(st3) or open(st3).read().strip() != "OK":
+            if not os.path.exists(st3) or not open(st3).read().startswith("OK"):
                 raise C.Machinery("resumed child failed")
             for raw in open(log2):
                 ln = json.loads(raw)
@@ -143,12 +148,36 @@ def measure(work):
     return time.time() - t0
 
 
-def crash_traces(work, seed, rounds, nops=60, workers=8):
+def count_commits(work, seed, nops):
+    """how many store transactions the history of `seed` commits (dry run)"""
+    rnd = random.Random(seed)
+    ops = crash_ops(rnd, nops)
+    d = os.path.join(work, "count-%d" % seed)
+    os.makedirs(d, exist_ok=True)
+    sp = os.path.join(d, "script.json")
+    json.dump({"driver": "badger", "dir": os.path.join(d, "db"), "seed": seed, "ops": ops}, open(sp, "w"))
+    st = os.path.join(d, "st")
+    p = _child(["crashchild", sp, os.path.join(d, "log"), st, "0", "-1", "0"], dict(os.environ, GOMAXPROCS="1", VIP_BADGER_PROD="1"))
+    p.wait(timeout=300)
+    import shutil
+    shutil.rmtree(os.path.join(d, "db"), ignore_errors=True)
+    try:
+        return int(open(st).read().split()[1])
+    except Exception:
+        raise C.Machinery("commit count dry run failed")
+
+
+def crash_traces(work, seed, rounds, nops=60, workers=8, sweeps=1):
     typical = measure(work)
     out = os.path.join(work, "c13-crash.ndjson")
     infos = []
     with cf.ThreadPoolExecutor(max_workers=workers) as ex:
         futs = [ex.submit(crash_round, work, "r%d" % i, seed * 100000 + i, nops, typical) for i in range(rounds)]
+        # exhaustive over the points between committed transactions: the same history, killed after its c-th commit, for every c
+        for k in range(sweeps):
+            hs = seed * 100000 + 90000 + k
+            n = count_commits(work, hs, 25)
+            futs += [ex.submit(crash_round, work, "s%d-%d" % (k, c), hs, 25, typical, c) for c in range(1, n + 1)]
         results = [f.result() for f in futs]
     n = 0
     with open(out, "w") as f:
